@@ -9,7 +9,14 @@
 #undef _ZN10QByteArray10fromBase64ERKS_6QFlagsINS_12Base64OptionEE
 #undef _ZNK10QByteArray5toIntEPbi
 #define QBD(p) (*(QAD**)(p))
-static int c06_is_lit(QAD *d, const char *lit, uint32_t n) { if (d->f1 != n) return 0; return vpl_cmp8(qb_bytes(d), (const uint8_t*)lit, n, qb_hint(d), n) == 0; }
+#define C06_BD(d) (((struct qb*)(d))->data)   /* typed destination: keeps the rest of the block constant-propagated */
+static void c06_copy8(QAD *d, uint32_t off, const uint8_t *s, uint32_t n, uint32_t hint) { for (uint32_t i = 0; i < hint; i++) { if (i >= n) break; C06_BD(d)[off + i] = s[i]; } }
+static int c06_cmp8(const uint8_t *a, const uint8_t *b, uint32_t n, uint32_t hint) { for (uint32_t i = 0; i < hint; i++) { if (i >= n) break; if (a[i] != b[i]) return 1; } return 0; }
+static uint32_t c06_strlen(const uint8_t *p) { uint32_t n = 0; for (; n < QB_CAP; n++) { if (!p[n]) break; } return n; }
+static QAD *c06_from(const uint8_t *p, uint32_t n) { QAD *d = qb_new(n, n); c06_copy8(d, 0, p, n, n); C06_BD(d)[n] = 0; return d; }
+/* constant upper bound of a block's length whenever the block pointer is known */
+static uint32_t c06_hint(QAD *d) { return d->f3 == QB_OFF ? ((struct qb*)d)->hint : d->f1; }
+static int c06_is_lit(QAD *d, const char *lit, uint32_t n) { if (d->f1 != n) return 0; return c06_cmp8(qb_bytes(d), (const uint8_t*)lit, n, n) == 0; }
 
 /* ---- QObject / QXmppLoggable boundary: no parent, no logger; signals go nowhere ---- */
 void _ZN13QXmppLoggableC2EP7QObject(char *self, char *parent) { ASSERT(parent == 0, "QXmppLoggable with a parent object is not modelled"); *(char**)(self + 8) = 0; }
@@ -21,20 +28,20 @@ void _ZN9QDateTimeC1Ev(char *self) { *(char**)self = 0; }
 /* ---- base64 stand-in: an injective code whose image contains neither ',' nor '=' (2 letters per byte: 'A'+high nibble,
    'a'+low nibble); the one literal the RFC fixes, base64("n,,") = "biws", is kept literally ("biws" is outside the image).
    Decoding text outside the image yields an arbitrary outcome (Qt's lenient decoder is trusted, not modelled). ---- */
-static void vpl_b64enc(uint8_t *o, const uint8_t *s, uint32_t n, uint32_t hint) { for (uint32_t i = 0; i < hint; i++) { if (i >= n) break; o[2 * i] = (uint8_t)('A' + (s[i] >> 4)); o[2 * i + 1] = (uint8_t)('a' + (s[i] & 15)); } }
+static void vpl_b64enc(QAD *o, const uint8_t *s, uint32_t n, uint32_t hint) { for (uint32_t i = 0; i < hint; i++) { if (i >= n) break; C06_BD(o)[2 * i] = (uint8_t)('A' + (s[i] >> 4)); C06_BD(o)[2 * i + 1] = (uint8_t)('a' + (s[i] & 15)); } }
 static uint8_t vpl_b64valid(const uint8_t *s, uint32_t n, uint32_t hint) { uint8_t ok = (n & 1) == 0; for (uint32_t i = 0; i < hint; i++) { if (i >= n) break; uint8_t c = s[i]; if (i & 1) { if (c < 'a' || c > 'p') ok = 0; } else { if (c < 'A' || c > 'P') ok = 0; } } return ok; }
 static QAD *c06_b64enc(QAD *raw) { uint32_t n = raw->f1; if (n == 0) return qb_new(0, 0); ASSERT(!numB(raw).isnum, "toBase64 of an abstract number string");
-  if (c06_is_lit(raw, "n,,", 3)) return qb_from((const uint8_t*)"biws", 4);
-  uint32_t h = qb_hint(raw); ASSERT(2 * n <= QB_CAP, "QByteArray capacity of the model exceeded (base64)"); QAD *d = qb_new(2 * n, 2 * h); vpl_b64enc(qb_bytes(d), qb_bytes(raw), n, h); qb_bytes(d)[2 * n] = 0; return d; }
+  if (c06_is_lit(raw, "n,,", 3)) return c06_from((const uint8_t*)"biws", 4);
+  uint32_t h = c06_hint(raw); ASSERT(2 * n <= QB_CAP, "QByteArray capacity of the model exceeded (base64)"); QAD *d = qb_new(2 * n, 2 * h); vpl_b64enc(d, qb_bytes(raw), n, h); C06_BD(d)[2 * n] = 0; return d; }
 #define C06_B64CAP 3
 static struct { QAD *txt; QAD *out; uint8_t ok; } c06_b64tab[C06_B64CAP]; static uint32_t c06_nb64;
 static QAD *c06_b64dec(QAD *enc, uint8_t *ok) { *ok = 1; uint32_t n = enc->f1; if (n == 0) return qb_new(0, 0);
-  if (c06_is_lit(enc, "biws", 4)) return qb_from((const uint8_t*)"n,,", 3);
-  uint32_t h = qb_hint(enc); uint8_t valid = vpl_b64valid(qb_bytes(enc), n, h);
+  if (c06_is_lit(enc, "biws", 4)) return c06_from((const uint8_t*)"n,,", 3);
+  uint32_t h = c06_hint(enc); uint8_t valid = vpl_b64valid(qb_bytes(enc), n, h);
   /* outside the image: arbitrary outcome (invalid, or <= 3 arbitrary bytes), but the same text always decodes the same way */
   uint8_t avalid = vp_bool(); uint32_t alen = vp_u32(); uint8_t a0 = vp_u8(), a1 = vp_u8(), a2 = vp_u8(); ASSUME(alen <= 3); if (!avalid) alen = 0;
   for (uint32_t k = 0; k < C06_B64CAP; k++) { if (k >= c06_nb64) break; if (qb_eq(c06_b64tab[k].txt, enc)) { QAD *p = c06_b64tab[k].out; avalid = c06_b64tab[k].ok; alen = p->f1; a0 = qb_bytes(p)[0]; a1 = qb_bytes(p)[1]; a2 = qb_bytes(p)[2]; break; } }
-  uint32_t hh = (h + 1) / 2 < 3 ? 3 : (h + 1) / 2; QAD *d = qb_new(0, hh); uint8_t *o = qb_bytes(d); const uint8_t *s = qb_bytes(enc);
+  uint32_t hh = (h + 1) / 2 < 3 ? 3 : (h + 1) / 2; QAD *d = qb_new(0, hh); uint8_t *o = C06_BD(d); const uint8_t *s = qb_bytes(enc);
   if (valid) { for (uint32_t i = 0; i < QB_CAP / 2; i++) { if (2 * i + 1 >= n || 2 * i + 1 >= h + 1) break; o[i] = (uint8_t)(((s[2 * i] - 'A') << 4) | (s[2 * i + 1] - 'a')); } d->f1 = n / 2; }
   else { o[0] = a0; o[1] = a1; o[2] = a2; d->f1 = alen; *ok = avalid; }
   o[d->f1] = 0;
@@ -60,8 +67,8 @@ uint32_t _ZNK10QByteArray5toIntEPbi(char *self, char *ok, uint32_t base) { QAD *
 
 /* ---- QByteArray helpers missing from qt_core.c ---- */
 uint8_t _ZNK10QByteArray10startsWithERKS_(char *self, char *o) { QAD *a = QBD(self), *b = QBD(o); if (b->f1 == 0) return 1; if (b->f1 > a->f1) return 0; if (numB(a).isnum || numB(b).isnum) return 0;
-  return vpl_cmp8(qb_bytes(a), qb_bytes(b), b->f1, qb_hint(a), qb_hint(b)) == 0; }
-uint8_t _ZNK10QByteArray10startsWithEPKc(char *self, char *s) { QAD *a = QBD(self); if (!s) return 1; uint32_t n = vpl_strlen8((uint8_t*)s); if (n == 0) return 1; if (n > a->f1 || numB(a).isnum) return 0; return vpl_cmp8(qb_bytes(a), (uint8_t*)s, n, qb_hint(a), n) == 0; }
+  return c06_cmp8(qb_bytes(a), qb_bytes(b), b->f1, c06_hint(b)) == 0; }
+uint8_t _ZNK10QByteArray10startsWithEPKc(char *self, char *s) { QAD *a = QBD(self); if (!s) return 1; uint32_t n = c06_strlen((uint8_t*)s); if (n == 0) return 1; if (n > a->f1 || numB(a).isnum) return 0; return c06_cmp8(qb_bytes(a), (uint8_t*)s, n, n) == 0; }
 #ifdef HAVE_T_struct_QListData__Data
 /* split: piece boundaries are scalars found by one scan; piece bytes are read from the source at (symbolic) offsets and written
    at concrete indices.  At most LIST_CAP pieces (asserted). */
@@ -75,14 +82,14 @@ static uint32_t vpl_split_scan(const uint8_t *s, uint32_t n, uint32_t hint, uint
 static QAD *c06_hint_blk; static uint32_t c06_hint_np, c06_hint_st[C06_MAXP], c06_hint_ln[C06_MAXP]; static uint8_t c06_hint_sep;
 void vp_split_hint_begin(char *ba, uint8_t sep) { c06_hint_blk = QBD(ba); c06_hint_np = 0; c06_hint_sep = sep; }
 void vp_split_hint_piece(uint32_t len) { ASSERT(c06_hint_np < C06_MAXP, "split hint: too many pieces"); c06_hint_st[c06_hint_np] = c06_hint_np ? c06_hint_st[c06_hint_np - 1] + c06_hint_ln[c06_hint_np - 1] + 1 : 0; c06_hint_ln[c06_hint_np] = len; c06_hint_np++; }
-void _ZNK10QByteArray5splitEc(char *ret, char *self, uint8_t sep) { QAD *a = QBD(self); ASSERT(!numB(a).isnum, "split of an abstract number string"); uint32_t h = qb_hint(a);
+void _ZNK10QByteArray5splitEc(char *ret, char *self, uint8_t sep) { QAD *a = QBD(self); ASSERT(!numB(a).isnum, "split of an abstract number string"); uint32_t h = c06_hint(a);
   uint32_t st[C06_MAXP], ln[C06_MAXP]; for (uint32_t k = 0; k < C06_MAXP; k++) { st[k] = 0; ln[k] = 0; } uint32_t np;
   if (a == c06_hint_blk && sep == c06_hint_sep && c06_hint_np > 0) { np = c06_hint_np; uint32_t total = c06_hint_st[np - 1] + c06_hint_ln[np - 1]; ASSERT(a->f1 == total, "split hint: total length"); ASSUME(a->f1 == total);
     uint32_t k = 0; for (uint32_t i = 0; i < QB_CAP; i++) { if (i >= total) break; uint8_t is_sep = (k + 1 < np && i == c06_hint_st[k + 1] - 1); ASSERT((qb_bytes(a)[i] == sep) == is_sep, "split hint: separator positions"); if (is_sep) k++; }
     for (uint32_t j = 0; j < C06_MAXP; j++) { st[j] = c06_hint_st[j]; ln[j] = c06_hint_ln[j]; } }
   else { np = vpl_split_scan(qb_bytes(a), a->f1, h, sep, st, ln); ASSERT(np <= C06_MAXP, "QList capacity of the model exceeded (split)"); ASSUME(np <= C06_MAXP); }
   struct ld *l = ld_new(np);
-  for (uint32_t k = 0; k < C06_MAXP; k++) { if (k >= np) break; QAD *p = qb_new(ln[k], ln[k] < h ? (a == c06_hint_blk ? ln[k] : h) : h); vpl_copy8(qb_bytes(p), qb_bytes(a) + st[k], ln[k], h); qb_bytes(p)[ln[k]] = 0; l->array[k] = (char*)p; }
+  for (uint32_t k = 0; k < C06_MAXP; k++) { if (k >= np) break; QAD *p = qb_new(ln[k], ln[k] < h ? (a == c06_hint_blk ? ln[k] : h) : h); c06_copy8(p, 0, qb_bytes(a) + st[k], ln[k], h); C06_BD(p)[ln[k]] = 0; l->array[k] = (char*)p; }
   *(struct ld**)ret = l; }
 #endif
 
@@ -111,8 +118,10 @@ static QAD *c06_oracle(uint8_t kind, uint32_t alg, QAD *a, QAD *b, uint32_t iter
   for (uint32_t k = 0; k < C06_ORC_CAP; k++) { if (k >= c06_orc_n) break; struct c06_orc *e = &c06_log[k];
     if (!found && e->kind == kind && e->alg == alg && e->iters == iters && e->dklen == dklen && qb_eq(e->a, a) && qb_eq(e->b, b)) { found = 1; for (uint32_t j = 0; j < C06_DIGLEN; j++) val[j] = e->out[j]; } }
   struct c06_orc *n = &c06_log[c06_orc_n++]; n->kind = kind; n->alg = alg; n->a = qad_ref(a); n->b = qad_ref(b); n->iters = iters; n->dklen = dklen;
-  QAD *d = qb_new(C06_DIGLEN, C06_DIGLEN); for (uint32_t j = 0; j < C06_DIGLEN; j++) { n->out[j] = val[j]; qb_bytes(d)[j] = val[j]; } qb_bytes(d)[C06_DIGLEN] = 0; return d; }
+  QAD *d = qb_new(C06_DIGLEN, C06_DIGLEN); for (uint32_t j = 0; j < C06_DIGLEN; j++) { n->out[j] = val[j]; C06_BD(d)[j] = val[j]; } C06_BD(d)[C06_DIGLEN] = 0; return d; }
 /* harness interface */
+static uint8_t c06_reference_phase;   /* set while the harness computes its RFC reference (may use parameters the client must refuse) */
+void vp_orc_reference(uint8_t on) { c06_reference_phase = on; }
 uint32_t vp_orc_count(void) { return c06_orc_n; }
 void vp_orc_seal(uint32_t n) { ASSERT(c06_orc_n <= n && n <= C06_ORC_CAP, "crypto oracle: seal below the number of recorded calls");
   for (uint32_t k = 0; k < C06_ORC_CAP; k++) { if (k >= c06_orc_n && k < n) { c06_log[k].kind = 0; c06_log[k].a = SHARED_NULL; c06_log[k].b = SHARED_NULL; } } c06_orc_n = n; }
@@ -129,7 +138,7 @@ uint32_t _ZN18QCryptographicHash10hashLengthENS_9AlgorithmE(uint32_t alg) { retu
 void _ZN18QCryptographicHash4hashERK10QByteArrayNS_9AlgorithmE(char *ret, char *data, uint32_t alg) { QBD(ret) = c06_oracle(C06_HASH, alg, QBD(data), SHARED_NULL, 0, 0); }
 void _ZN26QMessageAuthenticationCode4hashERK10QByteArrayS2_N18QCryptographicHash9AlgorithmE(char *ret, char *msg, char *key, uint32_t alg) { QBD(ret) = c06_oracle(C06_HMAC, alg, QBD(key), QBD(msg), 0, 0); }
 void _ZN17QPasswordDigestor15deriveKeyPbkdf2EN18QCryptographicHash9AlgorithmERK10QByteArrayS4_iy(char *ret, uint32_t alg, char *pw, char *salt, uint32_t iters, uint64_t dklen) {
-  VP_ASSERT((int32_t)iters >= 1, "C06 PBKDF2 is never run with an iteration count < 1"); VP_ASSERT(QBD(salt)->f1 > 0, "C06 PBKDF2 is never run with an empty salt");
+  if (!c06_reference_phase) { VP_ASSERT((int32_t)iters >= 1, "C06 PBKDF2 is never run with an iteration count < 1"); VP_ASSERT(QBD(salt)->f1 > 0, "C06 PBKDF2 is never run with an empty salt"); }
   QBD(ret) = c06_oracle(C06_PBKDF2, alg, QBD(pw), QBD(salt), iters, dklen); }
 /* incremental QMessageAuthenticationCode object: (algorithm, key, accumulated message) behind the d pointer */
 struct c06_mac { uint32_t alg; QAD *key; QAD *msg; };
@@ -141,14 +150,14 @@ void _ZNK26QMessageAuthenticationCode6resultEv(char *ret, char *self) { struct c
 #endif
 #ifdef HAVE_T_struct_QArrayData
 /* symbolic byte strings longer than vp_sym_bytes allows (<= 16) */
-void vp_sym_bytes_n(char *out, uint32_t maxlen) { uint32_t len = vp_u32(); ASSUME(len <= maxlen); ASSERT(maxlen <= 16, "symbolic bytes bound"); QAD *d = qb_new(len, maxlen); uint8_t *p = qb_bytes(d);
+void vp_sym_bytes_n(char *out, uint32_t maxlen) { uint32_t len = vp_u32(); ASSUME(len <= maxlen); ASSERT(maxlen <= 16, "symbolic bytes bound"); QAD *d = qb_new(len, maxlen); uint8_t *p = C06_BD(d);
   for (uint32_t i = 0; i < 16; i++) { if (i >= maxlen) break; p[i] = vp_u8(); } p[len] = 0; QBD(out) = d; }
 /* exactly n symbolic bytes */
-void vp_sym_bytes_exact(char *out, uint32_t n) { ASSERT(n <= 16, "symbolic bytes bound"); QAD *d = qb_new(n, n); uint8_t *p = qb_bytes(d); for (uint32_t i = 0; i < 16; i++) { if (i >= n) break; p[i] = vp_u8(); } p[n] = 0; QBD(out) = d; }
+void vp_sym_bytes_exact(char *out, uint32_t n) { ASSERT(n <= 16, "symbolic bytes bound"); QAD *d = qb_new(n, n); uint8_t *p = C06_BD(d); for (uint32_t i = 0; i < 16; i++) { if (i >= n) break; p[i] = vp_u8(); } p[n] = 0; QBD(out) = d; }
 #endif
 #ifdef HAVE_T_struct_QArrayData
 /* exactly n symbolic UTF-16 units (concrete length keeps every later offset concrete) */
-void vp_sym_string_exact(char *out, uint32_t n) { ASSERT(n <= 8, "symbolic string bound"); QAD *d = qs_new(n, n); uint16_t *p = qs_chars(d); for (uint32_t i = 0; i < 8; i++) { if (i >= n) break; p[i] = vp_u16(); } *(QAD**)out = d; }
+void vp_sym_string_exact(char *out, uint32_t n) { ASSERT(n <= 8, "symbolic string bound"); QAD *d = qs_new(n, n); uint16_t *p = ((struct qs*)d)->data; for (uint32_t i = 0; i < 8; i++) { if (i >= n) break; p[i] = vp_u16(); } *(QAD**)out = d; }
 #endif
 /* per-instance configuration constants (cdefs C06_CFG0..5): lets one translated program serve several length variants */
 #ifndef C06_CFG0
@@ -171,3 +180,9 @@ void vp_sym_string_exact(char *out, uint32_t n) { ASSERT(n <= 8, "symbolic strin
 #endif
 uint32_t vp_cfg(uint32_t i) { return i == 0 ? C06_CFG0 : i == 1 ? C06_CFG1 : i == 2 ? C06_CFG2 : i == 3 ? C06_CFG3 : i == 4 ? C06_CFG4 : C06_CFG5; }
 uint32_t vp_diglen(void) { return C06_DIGLEN; }
+/* QXmpp::Private::serializeXml(const void*, void(*)(const void*, QXmlStreamWriter*)) needs a QXmlStreamWriter over a QByteArray
+   device; it is redirected to a harness helper that serialises into the DOM/writer tree model (h_mgr.cpp) */
+#ifdef C06_SERIALIZE_VIA_HARNESS
+void F_vp_serialize_xml(char *ret, char *packet, char *fn);
+void _ZN5QXmpp7Private12serializeXmlEPKvPFvS2_P16QXmlStreamWriterE(char *ret, char *packet, char *fn) { F_vp_serialize_xml(ret, packet, fn); }
+#endif
